@@ -4,8 +4,8 @@ import json, subprocess
 
 CHECKS = {
  "C11": dict(level="exploration", design="5/C11", technique="complete grid over kernels x operations x lengths x alignments x contents x scalars against element-wise reference arithmetic, in release and debug-assertions builds",
-   text="Every kernel compiled for x86-64 (AVX-512, AVX2, SSSE3, portable; each called individually through the hook, so dead code on this CPU is executed) and the dispatcher, every length 0..=320 with destination offsets 0..63 and 7 source offsets, every length 321..=1100 (thorough 2200 and around 4096/8192/65536) with boundary offsets, all 256 scalars on boundary lengths, rotations giving every lane every byte value, one-hot positions and packed bit vectors with every padding-bit count; results must equal element-wise GF(256) arithmetic and nothing outside the destination may change.",
-   note="NEON cannot execute here; lengths above 1100 (thorough 2200) only around powers of two."),
+   text="Every kernel compiled for x86-64 (AVX-512, AVX2, SSSE3, portable; each called individually through the hook, so dead code on this CPU is executed) and the dispatcher, every length 0..=320 with destination offsets 0..63 and 7 source offsets, every length 321..=1600 and around 2048/4096 (thorough 2200 and around 8192/65536) with boundary offsets, all 256 scalars on boundary lengths, rotations giving every lane every byte value, one-hot positions and packed bit vectors with every padding-bit count; results must equal element-wise GF(256) arithmetic and nothing outside the destination may change.",
+   note="NEON cannot execute here; lengths above 1600 (thorough 2200) only around powers of two."),
  "C12": dict(level="exploration", design="5/C12", technique="the C11 kernel grid, the complete slab pair grid and whole encode/decode workloads enumerated under a guard-page allocator (every heap operand flush against a PROT_NONE page, at its end and at its start) in child processes",
    text="Out-of-bounds accesses are made observable rather than inferred: a page-heap global allocator places every heap allocation against an inaccessible page; the complete kernel grid, all (dest, src) pairs of 1..6-symbol slabs with four mappings, successive reorder mappings with pair operations after each, the remaining public Symbol/SymbolSlab operations, and encode/decode workloads run under both placements; a fault is a violation with the case in flight as replay. Aliasing/range refusals and the index-range facts of the unchecked table look-ups are enumerated completely.",
    note="Stacked-borrows aliasing is judged by Miri on fixed replays in the thorough tier only (harness-miri); NEON cannot execute."),
@@ -55,8 +55,8 @@ CHECKS = {
    text="Every configuration that exists on this host (in the quick tier: {release, debug-assertions+overflow-checks} x {std, no_std} x {auto/AVX-512, AVX2, SSSE3, portable} forced through the dispatchers x sparse threshold {0,250,inf} x {cache cold/warm, explicit plan, unplanned}, plus the release/std workload on one thread in ascending and in descending item order) runs the same workload; packets, decode outcomes and decoded bytes must be identical for every item, including a rank-deficient set and a set that forces the fast path to fall back.",
    note="NEON, non-x86 targets and other compilers cannot run here. Workload: K ladder x 4 symbol sizes x 2 data patterns plus every K of a contiguous range (1..170 release / 1..110 debug-assertions; 700 / 330 thorough); the debug-assertions builds run the reduced set (cubic self-checks)."),
  "C09": dict(level="exploration", design="5/C09", technique="complete grid K x T (every residue of the kernel strides) x kernel family x plan mode with metamorphic linearity/column-independence relations, plus a sweep over every symbol size",
-   text="For every symbol size 1..=160 (192 thorough) and boundary sizes, every kernel family and three ways of building the encoder: byte j of every packet equals the 1-byte packet of column j for every j; additivity for all data pairs; homogeneity for all 256 scalars; decode per T. T sweep: every T up to 2100 (thorough: every T up to 65535) and powers of two +-{0,1,2,100}, one encode per T with byte columns carrying fixed patterns, and with structured (zero / constant / periodic) symbols.",
-   note="Quick tier: T above 2100 only around powers of two; data alphabet {pos, lcg, unit0, ff, structured symbols} lifted by linearity itself."),
+   text="For every symbol size 1..=160 (192 thorough) and boundary sizes, every kernel family and three ways of building the encoder: byte j of every packet equals the 1-byte packet of column j for every j; additivity for all data pairs; homogeneity for all 256 scalars; decode per T. T sweep: every T up to 16600 (thorough: every T up to 65535) and powers of two +-{0,1,2,100}, one encode per T with byte columns carrying fixed patterns, and with structured (zero / constant / periodic) symbols.",
+   note="Quick tier: T above 16600 only around powers of two; data alphabet {pos, lcg, unit0, ff, structured symbols} lifted by linearity itself."),
  "C10": dict(level="exploration", design="5/C10", technique="exhaustive enumeration of the finite domain (256^2 pairs, 256^3 triples, all table entries) against a shift-and-xor reference",
    text="Complete enumeration of the whole finite input domain of the field arithmetic and of every derived table entry against an independent polynomial-arithmetic reference; exhaustive, so the property is decided outright for this build.",
    note="Trusts only the field polynomial 0x11D / generator 2 (the reference checks that 2 generates all 255 units)."),
